@@ -52,6 +52,9 @@ type Stats struct {
 	Truncated   int64
 	Pruned      int64
 	Accesses    int64 // memory accesses checked by the race oracle
+	// prefixes that could not be replayed (nondeterminism outside the scheduler): their subtrees are not explored
+	DivergedPrefixes int64
+	DivergenceSample string
 }
 
 type FoundAt struct {
@@ -91,6 +94,7 @@ func Explore(cfg Config) Stats {
 		newWork := false
 		expanded := map[string]int{} // state key -> largest remaining budget it was expanded with (+1)
 		stack := [][]int{{}}
+		parent := map[string][]string{} // child prefix -> the parent's trace up to the branching point + its alternatives there
 		for len(stack) > 0 {
 			if (cfg.MaxExec > 0 && st.Executions >= int64(cfg.MaxExec)) || (cfg.Deadline > 0 && time.Since(start) > cfg.Deadline) {
 				st.Exhaustive = false
@@ -100,6 +104,37 @@ func Explore(cfg Config) Stats {
 			stack = stack[:len(stack)-1]
 			x := &Exec{V: map[string]interface{}{}}
 			r := Run(prefix, cfg.FireBudget, cfg.TickBudget, cfg.MaxPoints, func() { cfg.Body(x) })
+			pk := fmt.Sprint(prefix)
+			for attempt := 0; r.Diverged != "" && strings.HasPrefix(r.Diverged, "replaying") && attempt < 3; attempt++ {
+				// the prefix did not replay: nondeterminism the scheduler does not own (e.g. Go's map iteration order
+				// inside the implementation). Try again; if it keeps diverging the subtree is given up and counted.
+				for _, f := range x.Cleanup {
+					f()
+				}
+				x = &Exec{V: map[string]interface{}{}}
+				r = Run(prefix, cfg.FireBudget, cfg.TickBudget, cfg.MaxPoints, func() { cfg.Body(x) })
+			}
+			if r.Diverged != "" && strings.HasPrefix(r.Diverged, "replaying") {
+				st.DivergedPrefixes++
+				st.Exhaustive = false
+				if st.DivergenceSample == "" {
+					pt := parent[pk]
+					first := ""
+					for j := 0; j < len(pt) && j < len(r.Trace); j++ {
+						if pt[j] != r.Trace[j] && !strings.HasPrefix(pt[j], "ALTS:") {
+							first = fmt.Sprintf("step %d was %q when the prefix was recorded and is %q now", j, pt[j], r.Trace[j])
+							break
+						}
+					}
+					st.DivergenceSample = r.Diverged + " | " + first + " | recorded: " + strings.Join(pt, " > ")
+				}
+				for _, f := range x.Cleanup {
+					f()
+				}
+				delete(parent, pk)
+				continue
+			}
+			delete(parent, pk)
 			var checked []Finding
 			if cfg.Check != nil {
 				checked = cfg.Check(x, r) // before the clean-up: it reads what the peers received
@@ -188,6 +223,13 @@ func Explore(cfg Config) Stats {
 					}
 					child := append(append([]int{}, choices[:i]...), alt)
 					stack = append(stack, child)
+					if len(parent) < 20000 {
+						var alts []string
+						for _, a := range p.Alts {
+							alts = append(alts, a.Desc)
+						}
+						parent[fmt.Sprint(child)] = append(append([]string{}, r.Trace[:min(i, len(r.Trace))]...), "ALTS: "+strings.Join(alts, " || "))
+					}
 				}
 			}
 		}
